@@ -20,6 +20,9 @@ LbWindows ==
 CommonResponses ==
     {RespCase("GetInfo", v, 7609, "common-response") : v \in SmallSubsetsOf(GiMin, GiOptionalVals(F0))}
     \cup {RespCase("GetInfo", [GiMin EXCEPT !.options = <<o>>], 7609, "common-response") : o \in SubsetsOf(GiOptMin, GiOptOptVals(F0))}
+    \* the size-related members against each other at the values real transports have
+    \cup {RespCase("GetInfo", [GiFull(F0) EXCEPT !.maxMsgSize = <<BN(m)>>, !.maxSerializedLargeBlobArray = <<BN(a)>>], 7609, "getinfo-size-grid") :
+             m \in {64, 1024, 1200, 3072, 3073, 4096, 7609, 7610, 65536}, a \in {0, 1024, 3008, 3009, 4096, 65536}}
     \cup {RespCase("CredentialManagement", v, 7609, "common-response") : v \in SmallSubsetsOf(CmRespMin, CmRespOptVals(F0))}
     \cup {RespCase("ClientPin", v, 7609, "common-response") : v \in SubsetsOf(CpRespMin, CpRespOptVals)}
     \cup {RespCase("MakeCredential", v, 7609, "common-response") : v \in SubsetsOf(McRespMin, McRespOptVals)}
